@@ -105,10 +105,18 @@ func (a *TraderAgent) Step(s *Sim) {
 			switch r.IntN(4) {
 			case 0:
 				minOut = sdkmath.ZeroInt()
-			case 1: // tight-ish: 60% of proportional
-				if !multihop {
-					minOut = sdkmath.LegacyNewDecFromInt(in).MulInt(resOut).QuoInt(resIn.Add(in)).Mul(decFromFloat(0.6 + 0.45*r.Float64())).TruncateInt()
+			case 1: // tight-ish: 60%..105% of the constant-product quote on current reserves
+				q := sdkmath.LegacyNewDecFromInt(in).MulInt(resOut).QuoInt(resIn.Add(in))
+				if multihop {
+					// second hop quoted on the first hop's quote: a real minimum that a same-block price
+					// move on either pool can break (only the last hop enforces it)
+					r2in, r2out := reserveOf(p2, DenomUSDC), reserveOf(p2, otherDenom(p2, DenomUSDC))
+					if r2in.IsPositive() && q.IsPositive() {
+						q = q.MulInt(r2out).Quo(sdkmath.LegacyNewDecFromInt(r2in).Add(q))
+						s.Stats.Probe("multihop_swap_with_real_minimum_submitted")
+					}
 				}
+				minOut = q.Mul(decFromFloat(0.6 + 0.45*r.Float64())).TruncateInt()
 			}
 			s.SendTx(u, "trader/swap_in", &ammtypes.MsgSwapExactAmountIn{Sender: u.Addr.String(), Routes: routes, TokenIn: sdk.NewCoin(inDenom, in), TokenOutMinAmount: minOut, Recipient: rcpt})
 		case 5, 6, 7: // exact out
